@@ -73,7 +73,7 @@ def record_cli_case(cid, T, sys_, seed, origin='cli'):
     mods = treeio.repo_modules()
     rnd = random.Random(seed)
     tmp = tempfile.mkdtemp(prefix='vf_trc_')
-    case = {'id': cid, 'origin': origin, 'sys': sys_, 'tree': None, 'seq': [], 'raw': [], 'sent': [],
+    case = {'id': cid, 'origin': origin, 'sys': sys_, 'topnode': seed % 3 == 0, 'tree': None, 'seq': [], 'raw': [], 'sent': [],
             'res': 'ok', 'file': {'used': 'F', 'pos': 'F', 'words': [], 'trans': [], 'nlines': 0}}
     try:
         src = os.path.join(tmp, 'in.export')
@@ -81,8 +81,11 @@ def record_cli_case(cid, T, sys_, seed, origin='cli'):
             f.write(fam_io.render_export(T, 7, False, rnd))
         tree = next(mods['treeinput'].export(src, 'utf-8', quiet=True))
         tf = mods['transform']
+        top = seed % 3 == 0
         with contextlib.redirect_stderr(io.StringIO()), contextlib.redirect_stdout(io.StringIO()):
             tree = tf.binarize(tf.negra_mark_heads(tree))
+            if top:
+                tree = tf.add_topnode(tree)      # returns the NEW root: the caller has to go on with it
             case['tree'] = treeio.Dumper(treeio.Atoms(seed)).dump(tree)
             sent, seq = getattr(mods['transitions'], sys_)(tree)
         case['raw'] = [str(t) for t in seq]
@@ -90,7 +93,8 @@ def record_cli_case(cid, T, sys_, seed, origin='cli'):
         case['sent'] = [[w, t] for (w, t) in sent]
         pos = rnd.random() < 0.5
         args = [core.VENV_PY, os.path.join(core.REPO, 'treetools'), 'transitions', src, os.path.join(tmp, 'out.tr'), sys_,
-                '--transform', 'negra_mark_heads', 'binarize'] + (['--dest-opts', 'pos'] if pos else [])
+                '--transform', 'negra_mark_heads', 'binarize'] + (['add_topnode'] if top else []) \
+            + (['--dest-opts', 'pos'] if pos else [])
         p = subprocess.run(args, cwd=tmp, stdout=subprocess.PIPE, stderr=subprocess.PIPE)
         lines = []
         if os.path.exists(os.path.join(tmp, 'out.tr')):
